@@ -60,6 +60,19 @@ func init() {
 		}
 		return mkVal(t, types.Int)
 	})
+	// ByteFrom: a byte drawn from a small set, as an ite-table over a fresh selector (all
+	// arithmetic and comparisons on it are lifted to the constant leaves).
+	vhreg("ByteFrom", func(fr *frame, args []value) value {
+		e := fr.eng()
+		set := args[1].(string)
+		s := e.newSym(args[0].(string), SBV8)
+		e.assume(mkBool(BVCmp("bvult", s, BVConst(uint64(len(set)), 8))))
+		t := BVConst(uint64(set[len(set)-1]), 8)
+		for i := len(set) - 2; i >= 0; i-- {
+			t = Ite(Eq(s, BVConst(uint64(i), 8)), BVConst(uint64(set[i]), 8), t)
+		}
+		return mkVal(t, types.Uint8)
+	})
 	vhreg("Bytes", func(fr *frame, args []value) value {
 		n := int(asInt64(args[1]))
 		b := make([]value, n)
